@@ -65,6 +65,14 @@ def _run(abbr, kind, syntax, options, text, mode):
             ret = '${%d:%s}\x01%d\x02' % (index, placeholder, len(calls))
         elif mode == 'plain':
             ret = placeholder
+        elif mode == 'drop':
+            ret = '${%d}' % index                       # the placeholder (and its line breaks) is not printed
+        elif mode == 'empty':
+            ret = ''
+        elif mode == 'addbreak':
+            ret = '[%d\n%s|\r\n]' % (index, placeholder)   # more lines than the placeholder has
+        elif mode == 'oneline':
+            ret = '${%d:%s}' % (index, ' '.join(placeholder.split()))   # fewer lines than the placeholder has
         else:
             ret = '${%d:%s}' % (index, placeholder) if placeholder else '${%d}' % index
         calls.append(('field', (index, placeholder), ret, offset, line, column))
@@ -190,10 +198,13 @@ def check_tabstops(nodes, syntax, options):
 
 # ---------------------------------------------------------------------------------------------
 
+MODES = ['tm', 'marked', 'plain', 'drop', 'empty', 'addbreak', 'oneline']
+
+
 def position_cases(rng, n_random, rows):
-    modes = ['tm', 'marked', 'plain']
+    modes = MODES
     for syn in MARKUP_SYNTAXES:
-        abbrs = list(MARKUP_ABBRS) + (XSL_ABBRS if syn == 'xsl' else [])
+        abbrs = list(MARKUP_ABBRS) + MULTILINE[:3] + (XSL_ABBRS if syn == 'xsl' else [])
         for _ in range(n_random):
             abbrs.append(render_abbr(gen_tree(rng, depth=rng.randint(1, 3), width=3, snippets=True, xsl=syn == 'xsl', fields=rng.random() < 0.5)))
         for a in abbrs:
@@ -211,8 +222,8 @@ def position_cases(rng, n_random, rows):
 
 
 MULTILINE = [
-    'p[title="${1:a\nb}"]>b', 'p{${1:a\nb}}+p', 'ul>li{${1:x\r\ny}}*2>b[t]', 'p{${1:a\nb} c ${2}}', 'div>p[a="${1:l1\nl2\nl3}" b]{x}',
-    'p{${1:a\rb}}>i',
+    'p[title="${1:a\nb}"]>b', 'p{${1:a\nb}}', 'ul>li{${1:x\r\ny}}*2>b[t]', 'p{${1:a\nb} c ${2}}', 'div>p[a="${1:l1\nl2\nl3}" b]{x}',
+    'p{${1:a\rb}}>i', 'p{${1:a\nb}}+p', 'div>p{${1:first line\nsecond}${2:x\ny\nz}}+b', 'p{${1:a\n\nb}t}',
 ]
 MULTILINE_CSS = ['p${1:a\nb}+m10', 'm${1:1\n2}-${2}+p']
 
@@ -220,12 +231,15 @@ MULTILINE_CSS = ['p${1:a\nb}+m10', 'm${1:1\n2}-${2}+p']
 def multiline_cases(rng, rows):
     for a in MULTILINE:
         for syn in MARKUP_SYNTAXES:
-            yield (a, 'markup', syn, {}, None, 'plain')
-            for _ in range(rows):
-                yield (a, 'markup', syn, random_options(rng), None, 'plain')
+            for mode in MODES:
+                yield (a, 'markup', syn, {}, None, mode)
+                for _ in range(rows):
+                    yield (a, 'markup', syn, random_options(rng), rng.choice(WRAP_TEXTS), mode)
     for a in MULTILINE_CSS:
         for syn in STYLE_SYNTAXES[:3]:
-            yield (a, 'stylesheet', syn, {}, None, 'plain')
+            for mode in MODES:
+                yield (a, 'stylesheet', syn, {}, None, mode)
+                yield (a, 'stylesheet', syn, random_options(rng), None, mode)
 
 
 def tabstop_cases(rng, n, fields):
@@ -253,7 +267,8 @@ def run(tier, seed):
     c1 = Clause('callback-positions', 'B',
                 '%d curated markup abbreviations (snippets, multi-line text, explicit fields, unicode) + %d random trees per markup syntax %r; '
                 '%d curated stylesheet abbreviations + random sums per stylesheet syntax %r; options random over %s; wrap text from %r; '
-                'callbacks: TextMate fields / unique-marker returning (longer strings) / placeholder only'
+'callbacks (MODES): TextMate fields / unique-marker returning (longer strings) / placeholder only / number only / '
+                'empty string / extra line breaks / placeholder folded to one line'
                 % (len(MARKUP_ABBRS), nr, MARKUP_SYNTAXES, len(STYLE_ABBRS), STYLE_SYNTAXES, [k for k, _ in OPTION_AXES], WRAP_TEXTS),
                 'defaults + %d random (options, text, callback mode) rows per markup abbreviation and syntax, %d per stylesheet abbreviation (%d random sums per stylesheet syntax)' % (rows, max(rows // 2, 1), nr // 10),
                 'a case is one expand run; every callback invocation of the run is checked: result[offset:offset+len(ret)] == ret, unique '
@@ -262,9 +277,9 @@ def run(tier, seed):
     c1.done()
 
     c2 = Clause('callback-positions-multiline-placeholder', 'B',
-                '%d markup and %d stylesheet abbreviations whose explicit field placeholder contains a line break, default-like '
-                'output.field (returns the placeholder)' % (len(MULTILINE), len(MULTILINE_CSS)),
-                'all markup syntaxes x (defaults + %d random option rows); 3 stylesheet syntaxes' % rows,
+'%d markup and %d stylesheet abbreviations whose explicit field placeholder contains a line break, under every '
+                'callback style %r (returned text with the same, more or fewer lines than the placeholder)' % (len(MULTILINE), len(MULTILINE_CSS), MODES),
+                'all markup syntaxes x callback styles x (defaults + %d random option/wrap-text rows); 3 stylesheet syntaxes' % rows,
                 'as callback-positions', exhaustive=False)
     run_parallel_sorted(c2, 'bounded.c13', 'check_positions', multiline_cases(rng, rows), chunk=50)
     c2.done()
